@@ -14,9 +14,9 @@ N = 0xFFFFFFFFFFFFFFFFFFFFFFFFFFFFFFFEBAAEDCE6AF48A03BBFD25E8CD0364141
 ASSUMPTIONS = [
     'fastecdsa _ecdsa.sign returns an arbitrary (r, s) in [1, n-1]^2 (stub); _ecdsa.verify returns an arbitrary bool (stub); is_point_on_curve returns an arbitrary bool (stub)',
     'RFC6979 nonce object: stub recording its arguments and returning a token (determinism is checked as data flow: no other state reaches the signer)',
-    "convert_der_sig's '%064x' formatting is C level: for DER input Signature.parse_bytes is run with convert_der_sig replaced by a reference DER decoder",
+    "job parse_der runs Signature.parse_bytes with convert_der_sig replaced by a reference DER decoder (all length classes); job der_strict runs the real convert_der_sig (re-compiled so that its '%064x' formatting stays symbolic) and fastecdsa's DER decoder",
 ]
-BOUNDS = {'quick': 'r, s in [1, n-1] with minimal byte length in {1, 16, 31, 32} and every value inside each class (create, DER, parse); all r, s in [-1, 2^256+1] outside [1,n-1] plus the length classes {1, 31, 32} inside (range checks, compact parse); hash type byte 0..255',
+BOUNDS = {'quick': 'strict DER with the REAL decoder: 32-byte r and s followed by 0..2 junk bytes; keys.sign with every hash type 1..255; verify twice on one object with the same or another digest; r, s in [1, n-1] with minimal byte length in {1, 16, 31, 32} and every value inside each class (create, DER, parse); all r, s in [-1, 2^256+1] outside [1,n-1] plus the length classes {1, 31, 32} inside (range checks, compact parse); hash type byte 0..255',
           'thorough': 'same'}
 OUTSIDE = 'validity of produced signatures under an independent verifier, exactness of the C verifier, nonce uniqueness (inside fastecdsa C code)'
 
@@ -34,6 +34,13 @@ def setup(ex):
     import fastecdsa.encoding.asn1 as FA
     for m in (K, E, FU, FD, FA):
         shims.install(m, int=shims.IntShim, bytes=shims.BytesShim)
+
+
+def setup_real_der(ex):
+    setup(ex)
+    K, E = _mods()
+    shims.rewrite_function(E, 'convert_der_sig')          # ('%064x%064x' % (r, s) stays symbolic)
+    shims.install(K, convert_der_sig=E.convert_der_sig)   # (keys imported the name)
 
 
 def ref_der_int(v):
@@ -203,6 +210,34 @@ def h_parse_der(ex):
     ex.check(_eq(sig.as_der_encoded(), blob), 'parse-der-reserialize-identity')
 
 
+def h_der_strict(ex):
+    """Signature.parse_bytes on a correct DER signature followed by extra bytes inside the blob (before the hash type
+    byte): BIP66 strict DER has no trailing data - the blob must be refused.  The REAL convert_der_sig and fastecdsa's
+    pure-Python DER decoder are executed (convert_der_sig re-compiled so that its '%064x' formatting stays symbolic)"""
+    K, E = _mods()
+    r = sized(ex, 'r', lens=(1, 32))
+    s = sized(ex, 's', lens=(1, 32))
+    extra = ex.choose('trailing_bytes', [0, 1, 2])
+    der = ref_der(r, s)
+    junk = ex.bytes('junk', extra) if extra else b''
+    blob = der + junk + b'\x01'
+    if len(blob) <= 64:
+        ex.cut('short DER blobs are taken for compact signatures (listed finding C13-parse-short-der-rejected)')
+    try:
+        sig = K.Signature.parse_bytes(blob if not ex.concrete else bytes(blob))
+        accepted = True
+    except (K.BKeyError, E.EncodingError, ValueError, Exception) as e:
+        if core.exception_origin(e.__traceback__) == 'harness':
+            raise
+        accepted = False
+    if extra:
+        ex.check(not accepted, 'der-with-trailing-bytes-refused')
+    else:
+        ex.check(accepted, 'strict-der-accepted')
+        if accepted:
+            ex.check(s_and(sig.r == r, sig.s == s), 'parse-der-r-s-real-decoder')
+
+
 class _FakePub:
     """stand-in for a public Key object (the real one needs C code to build)"""
     is_private = False
@@ -262,16 +297,19 @@ def h_verify_plumbing(ex):
     # asking again (same digest, same key) consults the verifier again: no answer is remembered
     result2 = ex.bool('c_verifier_result_second_call')
     fv.result = result2
+    digest2 = ex.choose('second_call_digest', ['0d12fdc4aac9eaaab9730999e0ce84c3bd5bb38dfd1f4c90c613ee177987429c',
+                                               'ff' * 32, '0d12fdc4aac9eaaab9730999e0ce84c3bd5bb38dfd1f4c90c613ee177987429d'])
     if ex.concrete:
         old2 = (K.fastecdsa_secp256k1, K._ecdsa)
         K.fastecdsa_secp256k1, K._ecdsa = _FakeCurve(oncurve), fv
     try:
-        out2 = sig.verify('0d12fdc4aac9eaaab9730999e0ce84c3bd5bb38dfd1f4c90c613ee177987429c', pub)
+        out2 = sig.verify(digest2, pub)
     finally:
         if ex.concrete:
             K.fastecdsa_secp256k1, K._ecdsa = old2
     ex.check(bool(out2) == bool(result2), 'verify-second-call-returns-c-verifier-result')
     ex.check(len(fv.calls) == 2, 'verify-second-call-consults-verifier')
+    ex.check(len(fv.calls) == 2 and fv.calls[1][2] == digest2, 'verify-second-call-checks-the-digest-it-was-given')
     a = fv.calls[0]
     px, py = _FakePub(comp).public_point()
     ex.check(a[0] == '7' and a[1] == '9' and a[2] == '0d12fdc4aac9eaaab9730999e0ce84c3bd5bb38dfd1f4c90c613ee177987429c'
@@ -323,6 +361,28 @@ def h_nonce_flow(ex):
         ex.check(_FakeRFC.calls == [(digest, secret, N)], 'rfc6979-seeded-with-digest-secret-order')
 
 
+def h_sign_hash_type(ex):
+    """keys.sign(digest, key, hash_type=h) for every hash type byte: the signature object and its DER serialization carry
+    exactly h (Signature.create is reached with the caller's hash type)"""
+    K, E = _mods()
+    ht = ex.int('hash_type', 1, 255)
+    fake = _FakeECDSA(ex, 5, 7)
+    if ex.concrete:
+        old = (K._ecdsa, K.RFC6979)
+        K._ecdsa, K.RFC6979 = fake, _FakeRFC
+        ht = int(ht)
+    else:
+        shims.install(K, _ecdsa=fake, RFC6979=_FakeRFC, str=shims.StrShim)
+    try:
+        sig = K.sign('0d12fdc4aac9eaaab9730999e0ce84c3bd5bb38dfd1f4c90c613ee177987429c', _key(), hash_type=ht)
+    finally:
+        if ex.concrete:
+            K._ecdsa, K.RFC6979 = old
+    ex.check(sig.hash_type == ht, 'sign-keeps-hash-type')
+    der = sig.as_der_encoded()
+    ex.check(der[len(der) - 1] == ht, 'sign-der-ends-with-hash-type')
+
+
 def jobs(tier):
     J = [Job('low_s', h_low_s, W=272, setup=setup, budget_s=1500),
          Job('der', h_der, W=272, setup=setup, budget_s=1500),
@@ -330,5 +390,7 @@ def jobs(tier):
          Job('parse_compact', h_parse_compact, W=272, setup=setup),
          Job('parse_der', h_parse_der, W=272, setup=setup, budget_s=1500),
          Job('verify_plumbing', h_verify_plumbing, W=64, setup=setup),
-         Job('nonce_flow', h_nonce_flow, W=272, setup=setup)]
+         Job('nonce_flow', h_nonce_flow, W=272, setup=setup),
+         Job('sign_hash_type', h_sign_hash_type, W=272, setup=setup),
+         Job('der_strict', h_der_strict, W=272, setup=setup_real_der, budget_s=1500)]
     return J
